@@ -2083,3 +2083,16 @@ M("C15-benign-call-args-bound-by-min", "C15", F_FR,
   "  for (pn = _first_true_parameter;\n       pn < num_parameters && pn < _parameters.size(); ++pn) {\n",
   "  for (pn = _first_true_parameter; pn < num_parameters; ++pn) {\n    if (!(pn < _parameters.size())) {\n      break;\n    }\n",
   benign=True)
+
+# ---- R15.25, base-class clause (F-C15y)
+M("C15-standard-layout-derefs-unknown-base", "C15", F_ST,
+  """    if (base == nullptr) {
+      // We don't know what this base class is (it is only forward-declared,
+      // or depends on a template parameter); like the other predicates,
+      // assume that it does not stand in the way.
+      continue;
+    }
+""", "", expect="R15.25|CPPStructType::is_standard_layout|")
+M("C15-trivial-derefs-unknown-base", "C15", F_ST,
+  "    if ((*di)._is_virtual || (base != nullptr && !base->is_trivial())) {", "    if ((*di)._is_virtual || !base->is_trivial()) {",
+  expect="R15.25|CPPStructType::is_trivial|")
